@@ -281,6 +281,8 @@ impl Driver for C20 {
                         }
                         let reported = json!(prices.iter().map(|(n, p)| format!("{n}: {p}")).collect::<Vec<_>>());
                         let mut bad = false;
+                        // interior-point duals are accurate relative to the largest price of the model
+                        let price_scale = slopes.iter().map(|s| to_f64(s.as_ref().unwrap()).abs()).fold(1.0f64, f64::max);
                         let pre = if *which == "linear-model" { None } else { compiled_differs(&spec) };
                         // unnamed rows report none; nothing but the model's named rows is listed
                         for (n, _) in &prices {
@@ -303,11 +305,11 @@ impl Driver for C20 {
                                     bad = true;
                                 }
                                 Some((_, got)) => {
-                                    if (got - wf).abs() <= 1e-5 * wf.abs().max(1.0) {
+                                    if (got - wf).abs() <= 1e-5 * price_scale {
                                         out.tag("price-agrees");
                                         out.tag(&format!("price-agrees:{class}"));
                                     } else {
-                                        let kind = if (got + wf).abs() <= 1e-5 * wf.abs().max(1.0) { "sign-flipped" } else if wf == 0.0 { "nonzero-on-inactive-row" } else if *got == 0.0 { "zero-on-active-row" } else { "wrong-magnitude" };
+                                        let kind = if (got + wf).abs() <= 1e-5 * price_scale { "sign-flipped" } else if wf == 0.0 { "nonzero-on-inactive-row" } else if *got == 0.0 { "zero-on-active-row" } else { "wrong-magnitude" };
                                         let sig = match &pre {
                                             Some((p, compiled)) => match compiled_subdifferential(compiled, &r.name) {
                                                 // a valid dual price of the compiled model: the compiler changed the sensitivities
@@ -348,7 +350,7 @@ impl Driver for C20 {
         Some((format!("never-returns({})", c.kind), format!("worker ended with {}", c.kind)))
     }
     fn rule(&self) -> String {
-        "continuous LPs (<=5 variables, <=5 rows, named and unnamed rows, <=, >= and = rows, min and max, offsets, free / bounded / half-bounded variables). The exact rational LP solver computes the optimum and, for every row, the four difference quotients of the optimal value for right-hand side changes of +-1/8 and +-1/16; a model is used only when all four coincide for every row (value differentiable in every right-hand side: the dual solution is unique). Three doors: solve_real_lp_problem_clarabel on the LinearModel, ModelBuilder::solve_with(Clarabel) + shadow_price(name), source text through RoocSolver. Every named row must carry a price equal to the exact slope within 1e-5 (inactive rows: 0), no price may be listed for an unnamed or unknown row. non-trivial = distinct (door, model) with all prices confirmed".into()
+        "continuous LPs (<=5 variables, <=5 rows, named and unnamed rows, <=, >= and = rows, min and max, offsets, free / bounded / half-bounded variables). The exact rational LP solver computes the optimum and, for every row, the four difference quotients of the optimal value for right-hand side changes of +-1/8 and +-1/16; a model is used only when all four coincide for every row (value differentiable in every right-hand side: the dual solution is unique). Three doors: solve_real_lp_problem_clarabel on the LinearModel, ModelBuilder::solve_with(Clarabel) + shadow_price(name), source text through RoocSolver. Every named row must carry a price equal to the exact slope within 1e-5 of the model's largest price (inactive rows: 0), no price may be listed for an unnamed or unknown row. non-trivial = distinct (door, model) with all prices confirmed".into()
     }
     fn thresholds(&self, tier: Tier) -> Thresholds {
         let s = tier.pick(4, 40);
@@ -376,7 +378,7 @@ impl Driver for C20 {
     fn assumptions(&self) -> Vec<String> {
         vec![
             "the property's precondition (unique non-degenerate optimum) is decided as: the exact optimal value is affine in each row's right-hand side on [-1/8, 1/8]".into(),
-            "Clarabel is an interior-point method: prices are compared with a 1e-5 relative tolerance".into(),
+            "Clarabel is an interior-point method: prices are compared with a tolerance of 1e-5 times the largest exact price of the model (at least 1)".into(),
         ]
     }
 }
